@@ -349,3 +349,18 @@ package generator
 //@   errdrop format.Source: falling back to the unformatted text (with a warning) is the documented behaviour; whether that text compiles is C01's concern
 //@ func (*defaultValidator).dumpDefaultValue@drops
 //@   errdrop tryDumpDefaultSlice: the error only selects the fallback rendering through litter.Sdump
+
+// ---- map iterations (C12: output is a deterministic function of its input) ----
+//@ func sortedKeys
+//@   props C12
+//@   maprange 0: sorted
+//@ func sortDefinitionsByName
+//@   props C12
+//@   maprange 0: sorted
+//@ func (*Generator).Sources
+//@   props C12
+//@   maprange 0: argued each output's text goes to the builder of its own FileName; beginOutput keeps at most one output per FileName (same file + same package reuses the output, same file + other package is an error), so no two iterations touch the same builder
+//@   maprange 1: keyed-write
+//@ func (*Generator).beginOutput
+//@   props C12 C20
+//@   maprange 0: argued at most one existing output can match (FileName, package) and a (FileName, other package) match is an error whichever is met first only when both exist, which the same invariant excludes
